@@ -1070,7 +1070,8 @@ def baseline_cand_lens(scn: tuple, seed: int) -> dict:
 def build_jobs(thorough: bool, seed: int) -> tuple[list, dict]:
     jobs: list[tuple] = []
     stats: dict = {"scenarios": [], "singles": 0, "pairs": 0}
-    scns = [(h, ncirc, spare) for h in (1, 2, 3) for ncirc, spare in ((1, False), (1, True), (2, False))]
+    scns = [(h, ncirc, spare) for h in (1, 2, 3) for ncirc, spare in ((1, False), (1, True), (2, False))
+            if not (spare and h == 1)]      # a 1-hop circuit to a required exit has no alternative peer
     for scn in scns:
         h, ncirc, spare = scn
         lens = baseline_cand_lens(scn, seed)
